@@ -172,6 +172,12 @@ def build_record(spec):
             # long values without a space to wrap at (a URL, a SMILES string, a sequence)
             subs.append(SubRegionAnnotation(6, 141, "x" * 130, TOOL, {"url": ["http://example.org/" + "a" * 90], "list": [",".join(["abcdefghij"] * 12)]},
                                             circular_origin=wrap))
+        if sideload == "reserved-detail-keys":
+            # detail names (free for the annotating tool to choose within the schema's pattern) that are also names of qualifiers
+            # antiSMASH writes for the area itself
+            subs.append(SubRegionAnnotation(6, 141, "anchor", TOOL, {"label": ["not the label"], "tool": ["x"]}, circular_origin=wrap))
+            protos.append(ProtoclusterAnnotation(150, 210, "sideprod", TOOL, {"product": ["other"], "core_location": ["[1:2]"]}, 9, 12,
+                                                 circular_origin=wrap))
         if sideload == "identical-areas":
             # annotations that differ only in their details: nothing an ordering can use
             subs.append(SubRegionAnnotation(6, 141, "same", TOOL, {"score": ["1"]}, circular_origin=wrap))
@@ -393,10 +399,11 @@ def specs(tier):
             for rules in (None, "single", "twins", "mixed", "separate", "spread"):
                 for sideload in (None, "sub", "proto", "both", "twin-sub", "two-subs", "origin-sub", "origin-subs", "origin-protos",
                                  "value-shapes", "unbreakable-values", "identical-areas", "strand-tie", "exact-gene-span", "around-intron",
-                                 "origin-twin-protos"):
+                                 "origin-twin-protos", "reserved-detail-keys"):
                     if sideload in ("origin-sub", "origin-subs", "origin-protos", "around-intron", "origin-twin-protos") and not circ:
                         continue
-                    if sideload in ("value-shapes", "unbreakable-values", "identical-areas") and (rules is not None or layout not in ("plain", "origin")):
+                    if sideload in ("value-shapes", "unbreakable-values", "identical-areas", "reserved-detail-keys") and \
+                            (rules is not None or layout not in ("plain", "origin")):
                         continue
                     if sideload == "strand-tie" and (rules != "separate" or layout != "plain"):
                         continue
